@@ -189,29 +189,63 @@ def unescape_tla(s):
     return s.replace('\\"', '"').replace("\\\\", "\\")
 
 
+SHARD_EVENTS = 120000
+
+
 def validate_trace(spec, trace, workers=16, timeout=3600, cfg=None, heap="6g", shards=1):
-    """E4: run the trace specification over a recorded trace; returns (verdicts, stats)."""
+    """E4: run the trace specification over a recorded trace; returns (verdicts, stats).  Large traces are split at session boundaries
+    into shards of at most SHARD_EVENTS events, each validated by its own TLC process (parsing one huge ndjson file is single-threaded)."""
     ids = []
+    bounds = [0]            # line indices where a shard may start
+    prev_sess = None
+    n = 0
     with open(trace) as f:
         for line in f:
-            if line.strip():
-                ids.append(json.loads(line)["id"])
+            if not line.strip():
+                continue
+            e = json.loads(line)
+            ids.append(e["id"])
+            if prev_sess is not None and e["sess"] != prev_sess and n - bounds[-1] >= SHARD_EVENTS:
+                bounds.append(n)
+            prev_sess = e["sess"]
+            n += 1
     if not ids:
         raise ToolError("empty trace %s" % trace)
-    r = run_tlc(spec, cfg=cfg, env={"TRACE": trace}, workers=workers, timeout=timeout, heap=heap, tag=spec + "." + os.path.basename(trace))
-    out = r["out"]
+    files = [trace]
+    if len(bounds) > 1:
+        files = []
+        bounds.append(n)
+        with open(trace) as f:
+            lines = [l for l in f if l.strip()]
+        for k in range(len(bounds) - 1):
+            p = "%s.shard%d" % (trace, k)
+            with open(p, "w") as g:
+                g.writelines(lines[bounds[k]:bounds[k + 1]])
+            files.append(p)
+        del lines
     verdicts = {}
-    for m in VANY.finditer(out):          # tolerant of TLC's pretty-printer wrapping long tuples over two lines
-        v = json.loads(unescape_tla(m.group(1)))
-        verdicts[v[0]] = v
-    if r["rc"] == -9:
-        raise ToolError("trace validation %s timed out" % spec)
-    if "Model checking completed. No error has been found." not in out:
-        raise ToolError("trace validation %s: TLC error:\n%s" % (spec, tlc_error_text(out)))
+    total = dict(out="", rc=0, generated=0, distinct=0, wall=0.0)
+    try:
+        for p in files:
+            r = run_tlc(spec, cfg=cfg, env={"TRACE": p}, workers=workers, timeout=timeout, heap=heap, tag=spec + "." + os.path.basename(p))
+            out = r["out"]
+            for m in VANY.finditer(out):          # tolerant of TLC's pretty-printer wrapping long tuples over two lines
+                v = json.loads(unescape_tla(m.group(1)))
+                verdicts[v[0]] = v
+            if r["rc"] == -9:
+                raise ToolError("trace validation %s timed out" % spec)
+            if "Model checking completed. No error has been found." not in out:
+                raise ToolError("trace validation %s: TLC error:\n%s" % (spec, tlc_error_text(out)))
+            total["generated"] += r["generated"]; total["distinct"] += r["distinct"]; total["wall"] += r["wall"]
+    finally:
+        if len(files) > 1:
+            for p in files:
+                if os.path.exists(p):
+                    os.remove(p)
     missing = [i for i in ids if i not in verdicts]
     if missing:
         raise ToolError("trace validation %s: %d events without verdict (first id %s)" % (spec, len(missing), missing[0]))
-    return verdicts, r
+    return verdicts, total
 
 
 def run_plan(spec, cfg=None, out=None, workers=4, timeout=1800, extra=None):
